@@ -114,7 +114,7 @@ static void t_plu(a_uint n, unsigned long const *a)
     ASSERT(sign == 1 || sign == -1, "plu: sign is +1 or -1");
     ASSERT(sign == parity(p, n), "plu: sign is the parity of the permutation p");
     if (zero_col0) { ASSERT(rc == A_FAILURE, "plu: an exactly zero first (pivot) column is reported as failure"); }
-    if (n == 1) { ASSERT((rc == A_FAILURE) == (ABS(AT(a, 0)) < A_REAL_MIN), "plu: order 1 fails exactly when |a| is below the threshold"); }
+    if (n == 1 && !ISNAN(AT(a, 0))) { ASSERT((rc == A_FAILURE) == (ABS(AT(a, 0)) < A_REAL_MIN), "plu: order 1 fails exactly when |a| is below the threshold"); }
     if (rc == A_SUCCESS)
     {
         for (i = 0; i < n; ++i) { ASSERT(!(ABS(A[i * n + i]) < A_REAL_MIN), "plu: success is reported only if no recorded pivot is below the threshold (vanishing pivot => failure)"); }
@@ -318,7 +318,7 @@ static void t_ldl(a_uint n, unsigned long const *a)
     int rc = a_real_ldl(n, A);
     ASSERT(rc == A_SUCCESS || rc == A_FAILURE, "ldl: returns success or failure");
     if (ABS(AT(a, 0)) < A_REAL_MIN) { ASSERT(rc == A_FAILURE, "ldl: a vanishing first pivot is reported as failure"); }
-    if (n == 1) { ASSERT((rc == A_FAILURE) == (ABS(AT(a, 0)) < A_REAL_MIN), "ldl: order 1 fails exactly when |a| is below the threshold"); }
+    if (n == 1 && !ISNAN(AT(a, 0))) { ASSERT((rc == A_FAILURE) == (ABS(AT(a, 0)) < A_REAL_MIN), "ldl: order 1 fails exactly when |a| is below the threshold"); }
     if (rc == A_SUCCESS)
     {
         for (c = 0; c < n; ++c) { ASSERT(!(ABS(A[c * n + c]) < A_REAL_MIN), "ldl: success is reported only if no pivot D[c] is below the threshold (vanishing pivot => failure)"); }
